@@ -466,11 +466,25 @@ def real_part(rep):
                         stdout=subprocess.PIPE, stderr=subprocess.PIPE,
                         preexec_fn=new_group)
                     procs.append((tag, p, tmp, acc, out))
+        import time as _time
+        deadline = _time.time() + 300
         for tag, p, tmp, acc, out in procs:
+            # wait for the main process only: helpers it may leave behind
+            # keep the pipes open, so communicate() would wait for them
             try:
-                p.communicate(timeout=300)
+                p.wait(timeout=max(1, deadline - _time.time()))
+                hung = False
             except subprocess.TimeoutExpired:
+                hung = True
+            try:
                 os.killpg(p.pid, signal.SIGKILL)
+            except ProcessLookupError:
+                pass
+            try:
+                p.communicate(timeout=30)
+            except subprocess.TimeoutExpired:
+                pass
+            if hung:
                 rep.violation(f'C06|real-hang|{tag}', {
                     'brief': f'bin/ddsmt {tag}: did not exit within 300 s '
                              f'after SIGINT'})
